@@ -83,6 +83,19 @@ func (e *Exec) Generate() (err error) {
 	for _, fv := range fn.FreeVars {
 		st.env[fv] = e.fromTerm(fv.Type(), c.Sym("fv_"+smt.Sanitize(fv.Name()), sortOf(fv.Type())), fv.Name())
 	}
+	// package-level invariants (established by package initialisation)
+	if fn.Pkg != nil || fn.Parent() != nil {
+		pkg := fn.Pkg
+		for p := fn; pkg == nil && p != nil; p = p.Parent() {
+			pkg = p.Pkg
+		}
+		if pkg != nil {
+			for _, inv := range e.DB.PkgInvariants[pkg.Pkg.Path()] {
+				e.assume(st, e.evalSpecBool(inv, map[string]specVar{}, st, st, "package invariant"))
+				e.Externs["package invariant (assumed, established by init): "+inv.Text] = true
+			}
+		}
+	}
 	e.entry = st.clone()
 	spec := e.Spec
 	var vars map[string]specVar
@@ -163,6 +176,7 @@ type qelim struct {
 	newSk  []*smt.Term
 	budget int
 	apps   map[string][]*smt.Term // ground applications by function name (E-matching)
+	strict bool
 	bmemo  map[int]bool
 }
 
@@ -229,7 +243,7 @@ func (q *qelim) matches(body, v *smt.Term) []*smt.Term {
 						if q.hasBound(t.Args[p]) {
 							continue // other bound variables: do not constrain
 						}
-						if t.Args[p] != g.Args[p] {
+						if t.Args[p] != g.Args[p] && (q.strict || !sameShape(t.Args[p], g.Args[p], 4)) {
 							ok = false
 							break
 						}
@@ -386,7 +400,10 @@ func sharesNode(t *smt.Term, set map[int]bool, seen map[int]bool) bool {
 }
 
 // Emit builds the (quantifier-free where possible) assertion list for o.
-func (e *Exec) Emit(o *Obligation) []*smt.Term {
+func (e *Exec) Emit(o *Obligation) []*smt.Term { return e.EmitMode(o, true) }
+
+// EmitMode: strict E-matching (other arguments must match syntactically) or loose.
+func (e *Exec) EmitMode(o *Obligation, strict bool) []*smt.Term {
 	c := e.C
 	var raw []*smt.Term
 	raw = append(raw, o.Facts.collect()...)
@@ -489,7 +506,7 @@ func (e *Exec) Emit(o *Obligation) []*smt.Term {
 			}
 		}
 	}
-	q := &qelim{c: c, skolem: map[int][]*smt.Term{}, apps: map[string][]*smt.Term{}, bmemo: map[int]bool{}}
+	q := &qelim{c: c, skolem: map[int][]*smt.Term{}, apps: map[string][]*smt.Term{}, bmemo: map[int]bool{}, strict: strict}
 	seen := map[*smt.Term]bool{}
 	for _, x := range append(append(append([]*smt.Term{}, o.Cands...), e.cands...), extCands...) {
 		if !seen[x] && (nodes[x.ID] || x.Op != "sym") {
@@ -499,7 +516,11 @@ func (e *Exec) Emit(o *Obligation) []*smt.Term {
 	}
 	var out []*smt.Term
 	prevSize := -1
-	for round := 0; round < 4; round++ {
+	maxRounds := 4
+	if !strict {
+		maxRounds = 3
+	}
+	for round := 0; round < maxRounds; round++ {
 		q.newSk = nil
 		q.budget = 6000
 		// ground terms known so far: the raw formulas plus the previous round's instances
@@ -518,6 +539,9 @@ func (e *Exec) Emit(o *Obligation) []*smt.Term {
 		out = nil
 		for _, t := range raw {
 			out = append(out, q.nnf(t, true))
+		}
+		if os.Getenv("GOVC_DEBUG") != "" {
+			fmt.Fprintf(os.Stderr, "  round %d strict=%v: budget left %d, skolems %d, cands %d\n", round, strict, q.budget, len(q.newSk), len(q.cands))
 		}
 		// skolems reach later instantiations through E-matching (they occur in
 		// ground applications of the previous round), not as blanket candidates
@@ -564,7 +588,9 @@ func (e *Exec) discharge(quick bool, sem chan struct{}, keepScripts bool) []*Obl
 	}
 	var wg sync.WaitGroup
 	for i, o := range e.Obls {
+		e.mu.Lock()
 		asserts := e.Emit(o)
+		e.mu.Unlock()
 		r := &OblResult{O: o}
 		res[i] = r
 		falseFound := false
@@ -594,7 +620,7 @@ func (e *Exec) discharge(quick bool, sem chan struct{}, keepScripts bool) []*Obl
 				break
 			}
 		}
-		script := e.C.BuildScript(asserts, logic, false, "")
+		script := e.scriptLocked(asserts, logic)
 		if keepScripts {
 			r.Script = script
 		}
@@ -621,6 +647,30 @@ func (e *Exec) discharge(quick bool, sem chan struct{}, keepScripts bool) []*Obl
 					r.Output = "inconclusive: " + best.Status
 				}
 				return
+			}
+			if best.Status != "unsat" && !r.O.Cover {
+				// second attempt with looser quantifier instantiation
+				if a2 := e.emitLocked(r.O, false); a2 != nil {
+					logic2 := "QF_UFBV"
+					for _, a := range a2 {
+						if smt.HasQuant(a) {
+							logic2 = "ALL"
+							break
+						}
+					}
+					s2 := e.scriptLocked(a2, logic2)
+					b2, all2 := smt.Portfolio(s2, first, rest)
+					if os.Getenv("GOVC_DEBUG") != "" {
+						fmt.Fprintf(os.Stderr, "loose retry %s: %d nodes -> %s\n", r.O.Name(), smt.Size(a2...), b2.Status)
+					}
+					for _, a := range all2 {
+						r.Time += a.Time
+					}
+					if b2.Status == "unsat" {
+						best = b2
+						r.Solver = b2.Solver + "+loose"
+					}
+				}
 			}
 			switch best.Status {
 			case "unsat":
@@ -666,4 +716,52 @@ func VerifyFunc(prog *ssa.Program, db *SpecDB, fn *ssa.Function, quick bool, wor
 	fr.Inlined = sortedSet(e.Inlined)
 	fr.Callees = sortedSet(e.Callees)
 	return fr
+}
+
+// The term context is not safe for concurrent use: re-emission from solver
+// goroutines is serialised.
+func (e *Exec) emitLocked(o *Obligation, strict bool) []*smt.Term {
+	e.mu.Lock()
+	defer e.mu.Unlock()
+	asserts := e.EmitMode(o, strict)
+	for _, a := range asserts {
+		if a.IsFalse() {
+			return nil
+		}
+	}
+	return asserts
+}
+
+func (e *Exec) scriptLocked(asserts []*smt.Term, logic string) string {
+	e.mu.Lock()
+	defer e.mu.Unlock()
+	return e.C.BuildScript(asserts, logic, false, "")
+}
+
+// sameShape: the two terms are built from the same function symbols down to
+// the given depth (leaves may differ).  Used by the loose E-matching mode to
+// accept, e.g., the level list of identity m for the level list of identity m'.
+func sameShape(a, b *smt.Term, depth int) bool {
+	if a == b {
+		return true
+	}
+	if a.Sort != b.Sort {
+		return false
+	}
+	if len(a.Args) == 0 || len(b.Args) == 0 {
+		// a leaf against anything of the same sort
+		return len(a.Args) == 0 && len(b.Args) == 0 || depth < 4
+	}
+	if a.Op != b.Op || a.Name != b.Name || len(a.Args) != len(b.Args) {
+		return false
+	}
+	if depth == 0 {
+		return true
+	}
+	for i := range a.Args {
+		if !sameShape(a.Args[i], b.Args[i], depth-1) {
+			return false
+		}
+	}
+	return true
 }
